@@ -196,7 +196,19 @@ func xSeqsObs(o *Obs, root string, seqs fileseq.FileSequences) {
 	o.Add("cover", hexList(cover))
 }
 
-// x.scan <mask> <style> <entries>: FindSequencesOnDisk(T/d, opts); mask bit0 = single, bit1 = hidden
+// xDirName: the scanned directory is T/d unless the op names it (optional last field)
+func xDirName(f []string, at int, root string) (string, bool) {
+	if len(f) <= at {
+		return "d", true
+	}
+	name := unhx(f[at])
+	if name == "" || name == "d" {
+		return "d", true
+	}
+	return name, os.Rename(filepath.Join(root, "d"), filepath.Join(root, name)) == nil
+}
+
+// x.scan <mask> <style> <entries> [dirname]: FindSequencesOnDisk(T/<dirname>, opts); mask bit0 = single, bit1 = hidden
 func opXScan(f []string) string {
 	mask := atoi(f[1])
 	ents := parseEntries(f[3])
@@ -207,8 +219,12 @@ func opXScan(f []string) string {
 	if err != nil {
 		return "setup=err"
 	}
+	dn, ok := xDirName(f, 4, root)
+	if !ok {
+		return "setup=err"
+	}
 	var o Obs
-	seqs, err := fileseq.FindSequencesOnDisk(filepath.Join(root, "d"), listOpts(mask, f[2], mask%2 == 1)...)
+	seqs, err := fileseq.FindSequencesOnDisk(filepath.Join(root, dn), listOpts(mask, f[2], mask%2 == 1)...)
 	if err != nil {
 		o.Add("err", "err")
 		return o.String()
@@ -228,8 +244,12 @@ func opXFind(f []string) string {
 	if err != nil {
 		return "setup=err"
 	}
+	dn, ok := xDirName(f, 4, root)
+	if !ok {
+		return "setup=err"
+	}
 	var o Obs
-	s, err := fileseq.FindSequenceOnDiskPad(filepath.Join(root, "d")+"/"+unhx(f[2]), styleOf(f[1]))
+	s, err := fileseq.FindSequenceOnDiskPad(filepath.Join(root, dn)+"/"+unhx(f[2]), styleOf(f[1]))
 	if err != nil {
 		o.Add("err", "err")
 		return o.String()
@@ -382,10 +402,15 @@ func genXDir(r *Rand) string {
 		ents[i], ents[j] = ents[j], ents[i]
 	}
 	style := r.Pick([]string{"1", "4"})
+	// the directory itself may carry pad characters, digits and dots
+	dn := ""
+	if r.Chance(1, 4) {
+		dn = " " + hx(r.Pick([]string{"d#x", "sh010.comp", "v1.2", "a@b", "1-5", "d d", "%04d"}))
+	}
 	if len(keys) > 0 && r.Chance(2, 5) {
 		k := keys[r.Intn(len(keys))]
 		pads := []string{"#", "@", "@@@", "##", "%04d", "$F", "1-100#", "@@"}
-		return "x.find " + style + " " + hx(k.base+r.Pick(pads)+k.ext) + " " + entsString(ents)
+		return "x.find " + style + " " + hx(k.base+r.Pick(pads)+k.ext) + " " + entsString(ents) + dn
 	}
-	return "x.scan " + strconv.Itoa(r.Intn(4)) + " " + style + " " + entsString(ents)
+	return "x.scan " + strconv.Itoa(r.Intn(4)) + " " + style + " " + entsString(ents) + dn
 }
